@@ -10,6 +10,7 @@ import (
 	"github.com/zmap/zlint/v3/lint"
 
 	"verif/core"
+	"verif/der"
 	"verif/seeds"
 	"verif/zl"
 )
@@ -231,3 +232,43 @@ func c10Diverse(reg lint.Registry, certs []*seeds.Seed, n int) []*seeds.Seed {
 	return out
 }
 
+
+// wideSerials returns the object with every "entry serial" — an INTEGER that is the first element of a SEQUENCE inside a
+// SEQUENCE OF such SEQUENCEs (CRL revoked entries, OCSP single responses' certIDs do not match and stay) — replaced by a
+// distinct value wider than 64 bits. nil if nothing matched or the result no longer parses.
+func wideSerials(kind seeds.Kind, enc []byte) []byte {
+	root, err := der.Parse(enc)
+	if err != nil {
+		return nil
+	}
+	n := 0
+	var visit func(x *der.Node)
+	visit = func(x *der.Node) {
+		if x.Constructed && x.Class == 0 && x.Tag == 16 && len(x.Children) >= 1 {
+			all := true
+			for _, c := range x.Children {
+				if !(c.Constructed && c.Class == 0 && c.Tag == 16 && len(c.Children) >= 2 && !c.Children[0].Constructed && c.Children[0].Class == 0 && c.Children[0].Tag == 2) {
+					all = false
+				}
+			}
+			if all {
+				for _, c := range x.Children {
+					n++
+					c.Children[0].Content = []byte{0x01, 0, 0, 0, 0, 0, 0, byte(n >> 8), byte(n), 0x5a}
+				}
+			}
+		}
+		for _, c := range x.Children {
+			visit(c)
+		}
+	}
+	visit(root)
+	if n == 0 {
+		return nil
+	}
+	out := root.Encode()
+	if _, err := zl.Parse(kind, out); err != nil {
+		return nil
+	}
+	return out
+}
